@@ -202,3 +202,120 @@ def lift(points2d):
 
 def flat(points2d):
     return [(float(x), float(y), 0.0) for x, y in points2d]
+
+
+# ------------------------------------------------------------------------------------------ planar lattice polygons
+# Simple polygons with integer vertices whose border corners have turning angles of exactly 45, 90 or 135
+# degrees (and -90 at the reflex corner of the L), optionally with interior lattice points.  Layout as in
+# POINT_SETS: (points, number of boundary points listed first, counter-clockwise); the remaining points are
+# strictly interior.  No three points are collinear (exact predicate `lattice_general_position`), so every
+# triangulation is non-degenerate and the flip graph explored by families.tri_enum is the full set.
+LATTICE_SETS = {
+    "trap": ([(0, 0), (4, 0), (8, 4), (0, 4)], 4),                          # turning 90, 45, 135, 90
+    "trap+1": ([(0, 0), (4, 0), (8, 4), (0, 4), (3, 2)], 4),
+    "rect+1": ([(0, 0), (6, 0), (6, 4), (0, 4), (2, 1)], 4),                # 90 x 4, asymmetric interior point
+    "rtri+1": ([(0, 0), (6, 0), (0, 6), (1, 2)], 3),                        # 90, 135, 135
+    "para+1": ([(0, 0), (4, 0), (6, 2), (2, 2), (2, 1)], 4),                # 135, 45, 135, 45
+    "house": ([(0, 0), (4, 0), (4, 4), (2, 6), (0, 4)], 5),                 # 90, 90, 45, 90, 45
+    "house+1": ([(0, 0), (4, 0), (4, 4), (2, 6), (0, 4), (1, 2)], 5),
+    "ell": ([(0, 0), (7, 0), (7, 3), (3, 3), (3, 5), (0, 5)], 6),           # 90 x 5, one reflex corner (-90)
+    "ell+1": ([(0, 0), (7, 0), (7, 3), (3, 3), (3, 5), (0, 5), (1, 4)], 6),
+    "hex": ([(0, 0), (4, 0), (6, 2), (6, 6), (2, 6), (0, 4)], 6),           # 90, 45, 45, 90, 45, 45
+    "hex+1": ([(0, 0), (4, 0), (6, 2), (6, 6), (2, 6), (0, 4), (3, 2)], 6),
+}
+
+
+def _in_closed_triangle(p, a, b, c):
+    return orient2d(a, b, p) >= 0 and orient2d(b, c, p) >= 0 and orient2d(c, a, p) >= 0
+
+
+def polygon_start_triangulation(points, nb):
+    """ear clipping of the simple polygon points[:nb] (ccw, exact integer predicates), interior points
+    inserted by 1->3 splits"""
+    idx = list(range(nb))
+    faces = []
+    while len(idx) > 3:
+        for k in range(len(idx)):
+            a, b, c = idx[k - 1], idx[k], idx[(k + 1) % len(idx)]
+            if orient2d(points[a], points[b], points[c]) <= 0:
+                continue
+            if any(_in_closed_triangle(points[q], points[a], points[b], points[c]) for q in idx if q not in (a, b, c)):
+                continue
+            faces.append((a, b, c))
+            idx.pop(k)
+            break
+        else:
+            raise ValueError("no ear: not a simple counter-clockwise polygon")
+    faces.append(tuple(idx))
+    for p in range(nb, len(points)):
+        for i, t in enumerate(faces):
+            a, b, c = (points[v] for v in t)
+            P = points[p]
+            if orient2d(a, b, P) > 0 and orient2d(b, c, P) > 0 and orient2d(c, a, P) > 0:
+                faces[i:i + 1] = [(t[0], t[1], p), (t[1], t[2], p), (t[2], t[0], p)]
+                break
+        else:
+            raise ValueError("point %d is not strictly inside a triangle" % p)
+    return faces
+
+
+def lattice_general_position(points, nb):
+    """integer coordinates, no three points collinear, the boundary is a counter-clockwise simple polygon whose
+    ear-clipping triangulation has exactly the polygon's area (exact)"""
+    if not all(isinstance(c, int) for p in points for c in p):
+        return False
+    n = len(points)
+    if any(orient2d(*(points[v] for v in t)) == 0 for t in itertools.combinations(range(n), 3)):
+        return False
+    shoelace = sum(points[i][0] * points[(i + 1) % nb][1] - points[(i + 1) % nb][0] * points[i][1] for i in range(nb))
+    try:
+        tri = polygon_start_triangulation(points, nb)
+    except ValueError:
+        return False
+    areas = [orient2d(*(points[v] for v in t)) for t in tri]
+    return shoelace > 0 and all(a > 0 for a in areas) and sum(areas) == shoelace
+
+
+def gauss_pow(re, im, k):
+    """(re + i im)**k in exact integer arithmetic"""
+    a, b = 1, 0
+    for _ in range(k):
+        a, b = a * re - b * im, a * im + b * re
+    return a, b
+
+
+def turning(e_in, e_out):
+    """Gaussian integer e_out * conj(e_in): its argument is the turning angle between the two edge vectors"""
+    return (e_out[0] * e_in[0] + e_out[1] * e_in[1], e_out[1] * e_in[0] - e_out[0] * e_in[1])
+
+
+def turning_class(re, im):
+    """exact class of a turning angle given as a Gaussian integer: multiples of 45 degrees are named, the rest is 'other'"""
+    if im == 0:
+        return "0" if re > 0 else "180"
+    s = "" if im > 0 else "-"
+    if re == 0:
+        return s + "90"
+    if re == abs(im):
+        return s + "45"
+    if -re == abs(im):
+        return s + "135"
+    return "other"
+
+
+def opposed(re, im, order):
+    """True iff order * (turning angle) = 180 degrees mod 360, exactly: the order-th powers of the two unit edge
+    directions are opposite"""
+    a, b = gauss_pow(re, im, order)
+    return b == 0 and a < 0
+
+
+def integer_planar(pts):
+    """[(x, y)] as Python ints if every point has integer x, y and z = 0 (exact predicates apply), else None"""
+    out = []
+    for p in pts:
+        q = [float(c) for c in (list(p) + [0.0])[:3]]
+        if q[2] != 0.0 or not (q[0].is_integer() and q[1].is_integer()):
+            return None
+        out.append((int(q[0]), int(q[1])))
+    return out
